@@ -205,7 +205,7 @@ func checkC04(c *Ctx) {
 	c.rule("DOM-shared-by-hash", "a subtree is skipped as shared only on hash equality", 1)
 	checkSharedByHash(c, "DOM-shared-by-hash", tow, func(v ssa.Value) bool {
 		// the iterator created from the previous version's root key (second NewNodeIterator)
-		return strings.Contains(roleOf(l, v, "", 0), "param:prevVersion")
+		return strings.Contains(roleOf(l, v, "", 0), ",arg1)#0")
 	})
 
 	// (3)
